@@ -9,6 +9,7 @@
 #
 import json
 from collections.abc import Iterator, Iterable
+from copy import copy
 from decimal import Decimal
 from types import ModuleType
 from typing import cast, Any, Optional, Union
@@ -309,17 +310,23 @@ def serialize_to_xml(elements: Iterable[Any],
             chunks.append(item)
             continue
 
+        if elem.tail is not None:
+            # The text that follows the element in its parent is not part of it
+            elem = copy(elem)
+            elem.tail = None
+
         try:
             cks = etree_module.tostringlist(
                 elem, encoding='utf-8', method=method, **kwargs
             )
         except TypeError:
             ck = etree_module.tostring(elem, encoding='utf-8', method=method)
-            chunks.append(ck.decode('utf-8').rstrip(elem.tail))
+            chunks.append(ck.decode('utf-8'))
         else:
             if cks and cks[0].startswith(b'<?'):
                 cks[0] = cks[0].replace(b'\'', b'"')
-            chunks.append(b'\n'.join(cks).decode('utf-8').rstrip(elem.tail))
+            # the chunks are pieces of the same text, not lines
+            chunks.append(b''.join(cks).decode('utf-8'))
 
     if not character_map:
         return (item_separator or '').join(chunks)
